@@ -2,6 +2,7 @@ import Fabio.Lemmas.C05Main
 import Fabio.Lemmas.C05Text
 import Fabio.Lemmas.C05Rebuild
 import Fabio.Lemmas.C05Glue
+import Fabio.Lemmas.C05Lang
 /-!
 C05 — route commands mean what the command language says: property theorems.
 
@@ -587,6 +588,117 @@ theorem api_lists_each_route_in_order (hw : WF t) (h p : Str) :
   C05Glue.api_at_key hw h p
 
 end glue
+
+/-! ### round 4: the command language as a writer (`Model/C05Lang.lean`) — text and structured commands agree
+
+`printDef w d` is the text of a command in the documented syntax (`w` = the decimal text of its weight);
+`DefOK pf w d` says that the language can carry `d` at all (tokens without white space or quotes, tags without
+comma/quote, option keys without `=`, a `del` by tags or by service, a `weight` that names a service or tags, `w`
+read by `strconv.ParseFloat` as `d.weight`). The property quantifies over "every finite sequence of well-formed
+route commands": these theorems say that such a sequence may be given as text (`NewTable`) or as definitions
+(`NewTableCustom`, the custom backend) with the same result, so every theorem above is a theorem about texts. -/
+
+section lang
+open Fabio.Model.C05Lang Fabio.Lemmas.C05Lang
+variable {pf : ParseFloat}
+
+/-- **print_then_parse**: every well-formed command, written in the command language, is read back by `Parse`'s
+line reader as that very command — all three commands, all eight forms (`route del tags …` is not mistaken for a
+service called `tags`, `route weight <src> weight …` not for the service form, a source called `weight` or a
+service called `tags` are read correctly) -/
+theorem print_then_parse {w : Str} (h : DefOK pf w d) : parseLine pf (printDef w d) = .ok (some d) :=
+  parseLine_printDef h
+
+/-- … a whole command list, one command per line -/
+theorem parse_of_printed_commands (cs : List (Str × RouteDef))
+    (h : ∀ x ∈ cs, DefOK pf x.1 x.2 ∧ byteLen (printDef x.1 x.2) < maxToken) :
+    parse pf (scriptText cs) = .ok (cs.map (·.2)) := parse_scriptText pf cs h
+
+/-- **commands_as_text**: `NewTable` on the text of a well-formed command list returns what `NewTableCustom` returns
+on the list itself — the same table or the same error of the same command -/
+theorem commands_as_text (cs : List (Str × RouteDef))
+    (h : ∀ x ∈ cs, DefOK pf x.1 x.2 ∧ byteLen (printDef x.1 x.2) < maxToken) :
+    loadTable env pf (scriptText cs) =
+      (match newTable env (cs.map (·.2)) with
+       | .ok t => .ok t
+       | .error e => .error (.table e)) := by
+  unfold loadTable
+  rw [parse_scriptText pf cs h]
+  dsimp only
+  cases hn : newTable env (cs.map (·.2)) <;> rfl
+
+/-- **text_refines_spec**: for every text `Parse` accepts, what `NewTable` makes of it is what the spec machine
+computes from the parsed commands — the table abstracts to the spec's map, or both stop with the same error -/
+theorem text_refines_spec {text : Str} {defs : List RouteDef} (h : parse pf text = .ok defs) :
+    (∀ t, loadTable env pf text = .ok t → specRun env defs = .ok (abs t)) ∧
+    (∀ e, loadTable env pf text = .error (.table e) → specRun env defs = .error e) ∧
+    (∀ e, loadTable env pf text ≠ .error (.parse e)) := by
+  have hr := refines_spec (env := env) defs
+  unfold loadTable
+  rw [h]
+  dsimp only
+  cases hn : newTable env defs with
+  | error e0 =>
+    rw [hn] at hr
+    refine ⟨?_, ?_, ?_⟩
+    · intro t ht; cases ht
+    · intro e he
+      injection he with he; injection he with he; subst he
+      exact hr.symm
+    · intro e he; cases he
+  | ok t0 =>
+    rw [hn] at hr
+    refine ⟨?_, ?_, ?_⟩
+    · intro t ht
+      injection ht with ht; subst ht
+      exact hr.symm
+    · intro e he; cases he
+    · intro e he; cases he
+
+/-- **text_of_commands_refines_spec**: the property's first sentence for commands given as text — applying a
+sequence of well-formed `route add`, `del` and `weight` commands, written in the command language, yields exactly
+the table the spec machine prescribes for those commands -/
+theorem text_of_commands_refines_spec (cs : List (Str × RouteDef))
+    (h : ∀ x ∈ cs, DefOK pf x.1 x.2 ∧ byteLen (printDef x.1 x.2) < maxToken) :
+    (∀ t, loadTable env pf (scriptText cs) = .ok t → specRun env (cs.map (·.2)) = .ok (abs t)) ∧
+    (∀ e, loadTable env pf (scriptText cs) = .error (.table e) → specRun env (cs.map (·.2)) = .error e) :=
+  ⟨(text_refines_spec (parse_scriptText pf cs h)).1, (text_refines_spec (parse_scriptText pf cs h)).2.1⟩
+
+/-- **add_line_twice_in_text**: writing a `route add` line twice in a row anywhere in a configuration text does
+not change what `NewTable` returns -/
+theorem add_line_twice_in_text (pre post : List (Str × RouteDef)) (x : Str × RouteDef) (hc : x.2.cmd = .add)
+    (h : ∀ y ∈ pre ++ x :: post, DefOK pf y.1 y.2 ∧ byteLen (printDef y.1 y.2) < maxToken) :
+    loadTable env pf (scriptText (pre ++ x :: x :: post)) = loadTable env pf (scriptText (pre ++ x :: post)) := by
+  have h2 : ∀ y ∈ pre ++ x :: x :: post, DefOK pf y.1 y.2 ∧ byteLen (printDef y.1 y.2) < maxToken := by
+    intro y hy
+    apply h y
+    simp only [List.mem_append, List.mem_cons] at hy ⊢
+    rcases hy with hy | hy | hy | hy
+    · exact .inl hy
+    · exact .inr (.inl hy)
+    · exact .inr (.inl hy)
+    · exact .inr (.inr hy)
+  rw [commands_as_text _ h2, commands_as_text _ h]
+  simp only [List.map_append, List.map_cons]
+  rw [add_twice_in_script (env := env) (d := x.2) (pre.map (·.2)) (post.map (·.2)) hc]
+
+/-- **aliases_of_printed_commands**: `ParseAliases` finds in the text of a command list exactly the `register`
+options of its commands -/
+theorem aliases_of_printed_commands (cs : List (Str × RouteDef))
+    (h : ∀ x ∈ cs, DefOK pf x.1 x.2 ∧ byteLen (printDef x.1 x.2) < maxToken) :
+    parseAliases pf (scriptText cs) = .ok (registerNames (cs.map (·.2))) :=
+  aliases_agree_with_parse (parse_scriptText pf cs h)
+
+/-- the hypotheses are satisfiable on a list with one command of every form (a service called `tags`, a source
+called `weight`, an option value containing `=`, a repeated tag) -/
+example : parse pfEx (scriptText csEx) = .ok (csEx.map (·.2)) := parse_of_printed_commands csEx csEx_ok
+example : csEx.length = 9 ∧ (csEx.map (·.2.cmd)).eraseDups.length = 3 := by decide +kernel
+/-- … and on a list whose commands all succeed `NewTable(text)` = `NewTableCustom(commands)`, a non-empty table -/
+example : (match loadTable C05Rebuild.env0 pfEx (scriptText csT), newTable C05Rebuild.env0 (csT.map (·.2)) with
+    | .ok a, .ok b => a == b && !a.isEmpty | _, _ => false) = true := by decide +kernel
+example := commands_as_text (env := C05Rebuild.env0) csT csT_ok
+
+end lang
 
 /-! ### the forced hypotheses are necessary (witnesses; the same inputs are replayed on the real code from
 `corpus/c05.roundtrip.jsonl`, where they are recorded findings) -/
